@@ -837,6 +837,38 @@ class OraclesMixin:
                     hidden=len(src.m.hidden()) > 0,
                     grouped=bool(src.m.grouping),
                 )
+        # O16.5: re-rooting commutes with a later verb that depends on the grouping state (by-name
+        # window aggregate): same frame from the origin and from the re-rooted table
+        hidden_group = any(src.m.name_of_tok(t) is None for t in src.m.grouping)
+        if src.m.grouping and pt.m.grouping and not (op == "collect" and (hidden_group or not step.get("keep", True))):
+            T = self.model.toks
+            ints = [n for n, t in src.m.visible if T[t].kind == "int" and pt.m.tok_of_name(n) is not None]
+            if ints:
+                name = ints[0]
+                self.note("reroot_commutation_checked")
+                for rep in sorted(pt.real):
+                    t_new, t_old = pt.real[rep], src.real.get(rep)
+                    if t_old is None:
+                        continue
+                    ra = self.call(lambda: self.export(t_old >> pdt.mutate(c__=pdt.C[name].sum())))
+                    rb = self.call(lambda: self.export(t_new >> pdt.mutate(c__=pdt.C[name].sum())))
+                    if ra[0] != "ok":
+                        continue
+                    if rb[0] != "ok" and rb[1] in ("SubqueryError", "NotSupportedError"):
+                        continue
+                    if rb[0] != "ok":
+                        self.violate("C16", "O16.5", f"a grouped window aggregate after `{op}` raised {rb[1]} on {rep} (it works on the origin)", rep=rep, op=op)
+                    ca = (list(ra[1].columns), canon_rows(ra[1].rows(), False))
+                    cb = (list(rb[1].columns), canon_rows(rb[1].rows(), False))
+                    if ca != cb:
+                        self.violate(
+                            "C16",
+                            "O16.5",
+                            f"`{op}` changed the grouping state: sum of `{name}` over the groups differs between the origin and the re-rooted table on {rep}; first diff {self.first_diff(ca[1], cb[1])}",
+                            rep=rep,
+                            op=op,
+                            hidden_group=hidden_group,
+                        )
         # O16.4: grouping state survives collect()
         if op == "collect" and step.get("keep", True) and src.m.grouping:
             self.note("collect_grouped")
